@@ -49,8 +49,10 @@ def _sched_case(draw):
     # what kind of Python callable the callable hyper-parameters / the factor functions are (anything callable is documented to work)
     ckind = draw(st.sampled_from(['function', 'function', 'partial', 'method', 'object']))
     lkind = draw(st.sampled_from(['function', 'function', 'partial', 'method', 'object']))
+    # a callable hyper-parameter is a function of the preconditioner's step count: value table indexed by steps (length 1 = constant)
+    ctables = {p: draw(st.lists(st.sampled_from(INIT_POOL[p]), min_size=1, max_size=3)) for p in callables}
     return {'kind': 'sched', 'init': init, 'scheduled': sorted(scheduled), 'callables': sorted(callables),
-            'tables': tables, 'ops': ops, 'callable_kind': ckind, 'lambda_kind': lkind}
+            'tables': tables, 'ops': ops, 'callable_kind': ckind, 'lambda_kind': lkind, 'ctables': ctables}
 
 
 @st.composite
@@ -187,12 +189,15 @@ class C19(Prop):
                 return Obj()
             return fn
 
-        def const_fn(v):
-            return as_kind(lambda step: v, case.get('callable_kind', 'function'))
+        ctables = {p: case.get('ctables', {}).get(p, [init[p]]) for p in callables}
+
+        def const_fn(p):
+            t = ctables[p]
+            return as_kind(lambda step: t[step % len(t)], case.get('callable_kind', 'function'))
 
         kwargs = {}
         for p in PARAMS:
-            kwargs[p] = const_fn(init[p]) if p in callables else init[p]
+            kwargs[p] = const_fn(p) if p in callables else init[p]
         model = torch.nn.Linear(1, 1)
         with warnings.catch_warnings():
             warnings.simplefilter('ignore')
@@ -213,7 +218,8 @@ class C19(Prop):
 
         lambdas = {p + '_lambda': table_fn(p) for p in scheduled}
         must_refuse = sorted(set(scheduled) & set(callables))
-        labels = {'kind': 'sched', 'refused': bool(must_refuse), 'n_sched': len(scheduled), 'callable_kind': case.get('callable_kind', 'function') if callables else '-'}
+        labels = {'kind': 'sched', 'refused': bool(must_refuse), 'n_sched': len(scheduled), 'callable_kind': case.get('callable_kind', 'function') if callables else '-',
+                  'varying_callable': any(len(set(t)) > 1 for t in ctables.values())}
         try:
             sched = LambdaParamScheduler(pre, **lambdas)
         except ValueError:
@@ -223,8 +229,9 @@ class C19(Prop):
             # remaining (non-callable) parameters is then built on the SAME preconditioner and driven through the program
             for p in PARAMS:
                 got = getattr(pre, p)
-                if got != init[p] or type(got) is not type(init[p]):
-                    return violation(f'a refused scheduler construction changed {p} to {got!r} (was {init[p]!r})', 'refusal-side-effect')
+                was = ctables[p][0] if p in callables else init[p]       # the preconditioner is at step 0 here
+                if got != was or type(got) is not type(was):
+                    return violation(f'a refused scheduler construction changed {p} to {got!r} (was {was!r})', 'refusal-side-effect')
             scheduled = [p for p in scheduled if p not in callables]
             lambdas = {p + '_lambda': table_fn(p) for p in scheduled}
             for p in calls:
@@ -258,7 +265,8 @@ class C19(Prop):
                 finally:
                     failing['who'] = None
                 for p in PARAMS:                      # unspecified after a failed step: adopt what is there
-                    model_vals[p] = getattr(pre, p)
+                    if p not in callables:
+                        model_vals[p] = getattr(pre, p)
                 labels['failed_step'] = True
                 continue
             if op['op'] == 'set_steps':
@@ -289,7 +297,7 @@ class C19(Prop):
                     model_vals[p] = int(model_vals[p] * fac) if p in INT_PARAMS else model_vals[p] * fac
             for p in PARAMS:
                 got = getattr(pre, p)
-                exp = model_vals[p]
+                exp = ctables[p][model_steps % len(ctables[p])] if p in callables else model_vals[p]
                 if got != exp or type(got) is not type(exp):
                     return violation(f'op {idx} ({op}): {p} = {got!r}, expected {exp!r}; scheduled={scheduled} tables={tables}', 'param-value')
             if pre.steps != model_steps:
